@@ -21,6 +21,7 @@ RUNS=${VERIF_FUZZ_RUNS:-400000}
 JOBS=${VERIF_FUZZ_JOBS:-6}
 SEED=${VERIF_SEED:-0}
 export CARGO_NET_OFFLINE=true
+export CARGO_TARGET_DIR=$WORK/target
 export RUSTFLAGS="--cfg bigdecimal_verif"
 log=$WORK/fuzz-build-$target.log
 if ! (cd "$ROOT/ws/harness" && cargo +nightly fuzz build --fuzz-dir "$HERE" "$target" >"$log" 2>&1); then
